@@ -7,9 +7,33 @@ TECH = "bounded symbolic execution of go/ssa of /repo (own engine symgo) + z3 SM
 
 CLAIMED = {
  "C05": dict(
-   text="All 2^32 VarInt and 2^64 VarLong values (full width, no value bound): encoder bytes/count/Len equal a textbook LEB128 reference, decode(encode(v))==v with exact consumption through both reader paths, and every 12-byte buffer is decoded with at most 5/10 bytes consumed and an error on longer continuation runs. Decided per path by z3; loops unwound 6/11 with an unwinding check.",
-   note="64-bit target; go/ssa + symgo instruction semantics (validated by native replay of witnesses); z3 soundness; bytes.Buffer/bytes.Reader/io.ReadFull executed from their real source; errors.New from source.",
+   text="All 2^32 VarInt and 2^64 VarLong values (full width, no value bound): encoder bytes/count/Len equal a textbook LEB128 reference, decode(encode(v))==v with exact consumption through both reader paths, and every 12-byte buffer is decoded with at most 5/10 bytes consumed and an error on longer continuation runs. Decided per path by z3; loops unwound with an unwinding check.",
+   note="64-bit target; go/ssa + symgo instruction semantics (validated by native replay of witnesses); z3 soundness; bytes.Buffer/bytes.Reader/io.ReadFull executed from their real source.",
    ref="6 C05"),
+ "C06": dict(
+   text="Per field type a layout/round-trip/count harness with fully symbolic values (Position over the whole signed 26/12/26 cube, floats as bit patterns incl. NaN) and arbitrary prior destination state: WriteTo bytes == independent big-endian/VarInt-prefixed layout, returned n == bytes produced/consumed, ReadFrom(bytes++trailing) yields the value through ByteReader and plain-reader paths. Variable-length types with lengths 0..4 (quick) / 0..8 (thorough); Option/OptionEncoder/OptionDecoder, Tuple (nested), Marshal/Builder/Scan composition. Ary/Opt/NBTField (reflect) are outside the claim.",
+   note="bounded lengths; reflect-driven combinators (Ary, Opt, NBTField) not covered; stubs listed in evidence.",
+   ref="6 C06"),
+ "C07": dict(
+   text="Pack/UnPack with id full int32, threshold in {-1, 0, any positive int (symbolic)}, payloads 0..3 bytes quick / 0..8 plus concrete boundary lengths 126,127,128,16383 thorough: unpack(pack(p))==p with a reused receiver and exactly one frame consumed, two frames in one stream, emitted frame accepted by an independent frame reader (lengths, data-length rule, zlib content == id++payload), and rejection of negative / oversize / below-threshold declared sizes for all int32 values of the length fields. zlib is a lossless model codec inside the engine (real zlib in native replay).",
+   note="deflate itself is trusted and modelled as a stored codec, so the compressed size's own VarInt boundary and real compression ratios are outside the claim; sync.Pool modelled as nondeterministic reuse.",
+   ref="6 C07"),
+ "C08": dict(
+   text="Panic-freedom on arbitrary input: every byte string of length 0..6 (quick) / 0..10 (thorough) fed to each packet field decoder and combinator, frame unpacking in both modes (compressed content arbitrary via the model codec), BitStorage/PaletteContainer/Section.ReadFrom and Chunk.PutData from fresh and used receivers. Every Go run-time panic site (index, slice bound, make, nil, division, explicit panic) is a solver query on every path; negative length prefixes are covered for the full int32 range.",
+   note="accepted non-negative length prefixes are enumerated only up to input length + 2; reflect-driven decoders (Ary, NBTField, Chunk.ReadFrom, registry), JSON text components and the command dispatcher are not covered yet.",
+   ref="6 C08"),
+ "C09": dict(
+   text="For every byte string of length 0..5 (quick) / 0..9 (thorough) and each of 14 stream decoders (fixed-width fields, VarInt/VarLong, Position, UUID, String, ByteArray, BitSet, FixedBitSet, Option, uncompressed frame): the result under 1/2/3-byte fragmentation equals the contiguous read (value, count, error-ness, residual); a reader failing or ending at every offset before completion yields an error; a writer failing after k bytes makes WriteTo/Pack fail for every k.",
+   note="readers returning (0,nil) or (n>0,err) are outside; NBT and RCON streams not covered yet.",
+   ref="6 C09"),
+ "C11": dict(
+   text="For every b=1..32 and n in {1,vpl-1,vpl,vpl+1,2vpl+1} (thorough also 64,130): one inductive step from an arbitrary state (arbitrary raw longs incl. padding bits) with symbolic i, j, v: Get/Set/Swap behave as an array, other indices untouched, Raw() follows the >=1.16 packing; out-of-range index/value panics leave the state unchanged; b=0; size rules, constructor refusal and Fix; wire round trip into fresh/used storage.",
+   note="n bounded as listed (not 4096) for the array step; calcBitsPerValue checked on a concrete list of n.",
+   ref="6 C11"),
+ "C12": dict(
+   text="PaletteContainer as an array for both configurations: histories of 3 (quick) / 4 Set(i,v) with symbolic i, v from the initial state (length 8) crossing 0->4 bits (blocks) and 0->1->2->3 bits (biomes); containers built from saved palette+data (lengths 16/64, palettes of 1,16,17,32,33 blocks and 1..8 biomes, symbolic pairwise-distinct ids) read as palette[unpack(data,i)] and preserved across the next upgrade; wire form judged by an independent paletted-container decoder and read back into fresh and used containers with exact consumption.",
+   note="length 4096 and palettes of 34..256+ entries outside; ids assumed in 0..2^14; block.BitsPerBlock / biome.BitsPerBiome imported natively from the current tree.",
+   ref="6 C12"),
 }
 
 NA = {
